@@ -42,7 +42,8 @@ EXTENDS Naturals, TLC
 CONSTANTS MainLen,            \* bytes of the main file (>= 2)
           CompLen,            \* bytes of the companion file (0 = none)
           RecordEvery,        \* the companion file has a record boundary every RecordEvery bytes
-          TmpAndRename, EndRecordOnError, LenientCompanion, ReaderMemo
+          TmpAndRename, EndRecordOnError, LenientCompanion, ReaderMemo,
+          NoTruncate          \* deviation: the main file is opened without truncation and overwritten in place
 VARIABLES phase,      \* "idle" | "main" | "comp" | "done" | "dead"
           path,       \* what the path holds: [run |-> "old"|"new", bytes |-> n, whole |-> BOOLEAN, sealed |-> "no"|"all"|"part"]
           tmp,        \* bytes written to the temporary file (TmpAndRename)
@@ -58,11 +59,16 @@ Init == /\ phase = "idle" /\ path = Old /\ tmp = 0 /\ comp = 0 /\ touched = FALS
         /\ last = "none" /\ lastT = FALSE /\ lastPh = "idle"
 Open == /\ phase = "idle" /\ phase' = "main"
         /\ IF TmpAndRename THEN UNCHANGED <<path, touched>>
-           ELSE path' = [run |-> "new", bytes |-> 0, sealed |-> "no"] /\ touched' = TRUE
+           ELSE /\ touched' = TRUE
+                /\ path' = IF NoTruncate THEN path      \* nothing flushed yet: the older run's bytes are all still there
+                           ELSE [run |-> "new", bytes |-> 0, sealed |-> "no"]
         /\ UNCHANGED <<tmp, comp, memo, last, lastT, lastPh>>
-Cur == IF TmpAndRename THEN tmp ELSE path.bytes
+Cur == IF TmpAndRename THEN tmp ELSE IF path.run = "old" THEN 0 ELSE path.bytes
 Append == /\ phase = "main" /\ Cur < MainLen
-          /\ IF TmpAndRename THEN tmp' = tmp + 1 /\ UNCHANGED path ELSE path' = [path EXCEPT !.bytes = @ + 1] /\ UNCHANGED tmp
+          /\ IF TmpAndRename THEN tmp' = tmp + 1 /\ UNCHANGED path
+             ELSE /\ UNCHANGED tmp
+                  /\ path' = IF path.run = "old" THEN [run |-> "new", bytes |-> 1, sealed |-> "no"]     \* first overwritten byte (NoTruncate)
+                             ELSE [path EXCEPT !.bytes = @ + 1]
           /\ UNCHANGED <<phase, comp, touched, memo, last, lastT, lastPh>>
 \* a checkpoint of the part written so far, complete in itself, moved onto the path
 Checkpoint == /\ TmpAndRename /\ phase = "main" /\ tmp > 0 /\ tmp < MainLen
@@ -75,7 +81,7 @@ SealMain == /\ phase = "main" /\ Cur = MainLen
 AppendComp == /\ phase = "comp" /\ comp < CompLen /\ comp' = comp + 1 /\ UNCHANGED <<phase, path, tmp, touched, memo, last, lastT, lastPh>>
 FinishComp == /\ phase = "comp" /\ comp = CompLen /\ phase' = "done" /\ UNCHANGED <<path, tmp, comp, touched, memo, last, lastT, lastPh>>
 \* an exception unwinds the writer while the main file is being written
-Interrupt == /\ phase = "main" /\ ~TmpAndRename /\ path.bytes > 0 /\ path.bytes < MainLen
+Interrupt == /\ phase = "main" /\ ~TmpAndRename /\ path.run = "new" /\ path.bytes > 0 /\ path.bytes < MainLen
              /\ path' = [path EXCEPT !.sealed = IF EndRecordOnError THEN "part" ELSE "no"]
              /\ phase' = "dead" /\ UNCHANGED <<tmp, comp, touched, memo, last, lastT, lastPh>>
 Kill == /\ phase \in {"main", "comp"} /\ phase' = "dead" /\ UNCHANGED <<path, tmp, comp, touched, memo, last, lastT, lastPh>>
